@@ -33,6 +33,10 @@ def plan(tier, seed):
         for be in ("numpy", "c", "jax"):
             specs.append({"klass": "hand", "i": k, "hand": h, "backend": be})
             k += 1
+    for j in range(24 if tier == "quick" else 300):
+        # Rush-Larsen rate shapes: whether the |g| > delta guard is emitted must not depend on removal
+        specs.append({"klass": "rate_shapes", "i": k, "backend": ("numpy", "c", "jax")[j % 3], "delta": (1e-8, 1e-3, 0.5)[(j // 3) % 3], "shapes": [("linear_k", "neg_inv_tau"), ("neg_inv_tau", "gate"), ("affine", "neg_inv_tau"), None][(j // 9) % 4]})
+        k += 1
     n = 330 if tier == "quick" else 4000
     for i in range(n):
         specs.append({"klass": "random", "i": i, "backend": ("numpy", "c", "numpy", "jax")[i % 4], "fill": i >= 16})
@@ -51,6 +55,11 @@ def run_case(spec, ctx):
         text = spec["text"]
     elif spec["klass"] == "hand":
         text = HAND[spec["hand"]]
+    elif spec["klass"] == "rate_shapes":
+        from ..gen import grlmodels
+
+        text = grlmodels.gen_grl_model(rng, n_states=rng.choice([2, 3]), shapes=list(spec["shapes"]) if spec.get("shapes") else None)[0]
+        text = text.replace("parameters(k=-0.5, tau=2.0, b=0.75)", "parameters(k=-0.5, tau=2.0, b=0.75, unused_p=1.5)") + "unused_a = x0 * 3 + unused_p\nunused_b = w * k\n"
     else:
         text = models.gen_model(rng, Profile(mod=False), shape=rng.choice(["unused", "unused", "random", "fan"]), depth=2, n_inter=rng.choice([3, 5, 8, 12]), n_states=rng.choice([2, 3, 4, 5])).render(rng)
     out["hash"] = models.structural_hash(text) + ":" + be
@@ -64,6 +73,7 @@ def run_case(spec, ctx):
         return out
     ode = lo.value
     stiff = sorted(ref.states)[::2]
+    DELTA = spec.get("delta", 1e-8)
     used = set()
     for a in ref.assigns:
         used |= ref.deps[a]
@@ -116,6 +126,15 @@ def run_case(spec, ctx):
         if len(pts) < 2:
             out.update(status="skipped", reason="too few decidable points")
             return out
+        if spec["klass"] == "rate_shapes":
+            # place the linear coefficients k and 1/tau on both sides of the guard |g| > delta
+            extra = []
+            for pt, res, dec in pts[:2]:
+                for kv, tv in ((DELTA / 2, 2.0), (-DELTA * (1 + 1e-3), 2.0), (-0.5, 2.0 / DELTA), (-0.5, -4.0 / DELTA), (-0.5, 1.0 / (DELTA * (1 + 1e-3))), (1e-6 if DELTA > 1e-6 else 1.0, 1e9)):
+                    p2 = dict(pt, k=kv, tau=tv)
+                    r2, d2 = ref.evaluate(p2)
+                    extra.append((p2, r2, d2))
+            pts = pts + extra
         calls, meta = [], []
         for j, (pt, res, dec) in enumerate(pts):
             for fn in ["rhs"] + sch:
